@@ -55,13 +55,15 @@ OwnWhy(h, tr, n) ==
 NoShape == [ok |-> FALSE, cap |-> 0, len |-> 0]
 Sh(s) == [ok |-> TRUE, cap |-> s.cap, len |-> s.len]
 PredShape(s, tr) ==
-  CASE s.op = "const" /\ s.f \in {"words", "parts"} -> Sh(A_FromWords(NWords(s.c.m), NWords(s.c.m)))
+  CASE s.op = "const" /\ s.f \in {"words", "parts"} ->
+         \* explicit bytes, or the compact form: exactly w words
+         LET nw == IF "c" \in DOMAIN s THEN NWords(s.c.m) ELSE s.w IN Sh(A_FromWords(nw, nw))
     [] s.op = "rewords" -> Sh(A_FromWords(tr[s.a].len, tr[s.a].len))
     [] s.op = "ones" -> Sh(A_Ones(s.n, WordBits, FixOnes))
     [] s.op = "clone" -> Sh(A_Clone(tr[s.a]))
     [] s.op = "clonefrom" ->
          LET me == IF tr[s.d].st THEN ZeroTriple ELSE tr[s.d] IN
-         IF s.a = s.d THEN Sh(A_CloneFrom(me, A_Clone(me))) ELSE Sh(A_CloneFrom(me, tr[s.a]))
+         IF s.a = s.d THEN Sh(A_CloneFrom(me, A_Clone(tr[s.d]))) ELSE Sh(A_CloneFrom(me, tr[s.a]))
     [] s.op = "static" -> Sh(A_FromStatic(IF s.n > 12 THEN 12 ELSE s.n))
     [] s.op = "drop" -> Sh(Shape(1, 0))
     [] OTHER -> NoShape
